@@ -758,7 +758,10 @@ def _correspond(ctx, xm, xh, root, proof_broken, failed, proof_out, gate_report)
         want = r.get("request")
         if want:
             want = want.replace("$R", root)
-            cases = [c for c in cases if c[3] == want][:1] or cases[:1]
+            hit = [c for c in cases if c[3] == want][:1] or cases[:1]
+            # keep the companion run without limit (the "unaffected" clause compares with it)
+            cases = hit + [c for c in cases if c[1][8] is None and c[2] is hit[0][2] and
+                           (c[1][:8], c[1][9]) == (hit[0][1][:8], hit[0][1][9]) and c is not hit[0]][:1]
     lines = ["root " + root] + [c[3] for c in cases]
     t1 = time.time()
     rc1, impl, err1 = run_bin(xh, lines)
@@ -809,11 +812,18 @@ def _correspond(ctx, xm, xh, root, proof_broken, failed, proof_out, gate_report)
     ctx.coverage["input_distribution"] = dict(kinds, fatal_classes=fatals)
     ctx.coverage["spec_oracle_checked"] = len(cases)
     ctx.coverage["gate_inventory"] = gate_report
-    for k in (1, len(cases) // 3, len(cases) // 2, len(cases) - 1):
+    for k in sorted({min(1, len(cases) - 1), len(cases) // 3, len(cases) // 2, len(cases) - 1}):
         ctx.sample({"kind": cases[k][0], "request": cases[k][3].replace(root, "$R")[:400],
                     "impl": impl[k].replace(root, "$R")[:600], "model": model[k].replace(root, "$R")[:600]})
     # --- URI resolution: real XMLURL / XMLUri / LocalFileInputSource vs model, RFC 2396 as oracle -----------
     ucases = uri_cases(ctx)
+    if ctx.replay:
+        rq = json.load(open(ctx.replay)).get("request") or ""
+        if rq.startswith("uri "):
+            f = rq.split()
+            ucases = [(f[1], f[2], f[3])]
+        else:
+            ucases = ucases[:50]
     ulines = ["uri %s %s %s" % (op, b, r or "-") for op, b, r in ucases]
     rcu1, uimpl, uerr1 = run_bin(xh, ulines)
     rcu2, umodel, uerr2 = run_bin(xm, ulines)
